@@ -18,6 +18,7 @@ package main
 // (ruleLoaderCache; G-STATE, G-CACHEFIELDS, G-INVALIDATE stay in loaderrules.go).
 
 import (
+	"strings"
 	"fmt"
 	"go/constant"
 	"go/token"
@@ -121,9 +122,15 @@ func buildLoaderSSA(c *Ctx, rule string) *loaderSSA {
 				args := call.Common().Args
 				for i, a := range args {
 					if i < len(cal.Params) {
-						if _, isMap := a.Type().Underlying().(*types.Map); isMap {
+						switch a.Type().Underlying().(type) {
+						case *types.Map, *types.Slice:
+							// a container handed down as an argument is the same container in the callee - except a
+							// struct field handed to a small helper method (has/add/remove of a set type): several
+							// fields share that helper, which is summarised as an operation on its argument instead
 							if k := setKey(a); k != nil {
-								ls.union(k, cal.Params[i])
+								if _, isField := k.(*types.Var); !isField {
+									ls.union(k, cal.Params[i])
+								}
 							}
 						}
 					}
@@ -171,12 +178,10 @@ func buildLoaderSSA(c *Ctx, rule string) *loaderSSA {
 				if ls.A != nil {
 					break
 				}
-				for _, cc := range controlCondsPol(blk) {
-					for _, m := range necessaryMemberships(cc.Cond, cc.Taken, 0) {
-						if m.pos {
-							if k := ls.setOf(m.set); k != nil && ls.A == nil {
-								ls.A = k
-							}
+				for _, m := range blockMemberships(blk) {
+					if m.pos {
+						if k := ls.setOf(m.set); k != nil && ls.A == nil {
+							ls.A = k
 						}
 					}
 				}
@@ -222,11 +227,9 @@ func buildLoaderSSA(c *Ctx, rule string) *loaderSSA {
 					frontier = next
 				}
 				for _, blk := range blks {
-					for _, cc := range controlCondsPol(blk) {
-						for _, m := range necessaryMemberships(cc.Cond, cc.Taken, 0) {
-							if k := ls.setOf(m.set); !m.pos && k != nil && k != ls.A && ls.L == nil && (ls.cache == nil || k != any(ls.cache)) {
-								ls.L = k
-							}
+					for _, m := range blockMemberships(blk) {
+						if k := ls.setOf(m.set); !m.pos && k != nil && k != ls.A && ls.L == nil && (ls.cache == nil || k != any(ls.cache)) {
+							ls.L = k
 						}
 					}
 				}
@@ -543,6 +546,17 @@ func setKey(v ssa.Value) any {
 // memberTest: the instruction tests membership of a value in a container: `m[k]`, `_, ok := m[k]`,
 // slices.Contains(s, k).  Returns the container value.
 func memberTest(ins ssa.Instruction) (ssa.Value, bool) {
+	if !helperOff {
+		// a `has` method: returns the outcome of a membership test on its parameter
+		if call, ok := ins.(*ssa.Call); ok {
+			if cal := call.Call.StaticCallee(); cal != nil && cal.Blocks != nil && inModule(cal) && len(cal.Blocks) == 1 &&
+				cal.Signature.Results().Len() == 1 && types.TypeString(cal.Signature.Results().At(0).Type(), nil) == "bool" {
+				if v, ok := helperOp(ins, memberTest); ok {
+					return v, true
+				}
+			}
+		}
+	}
 	switch x := ins.(type) {
 	case *ssa.Lookup:
 		if _, isMap := x.X.Type().Underlying().(*types.Map); isMap {
@@ -564,9 +578,65 @@ func memberTest(ins ssa.Instruction) (ssa.Value, bool) {
 	return nil, false
 }
 
+// helperOp: the call (or deferred call) invokes a small module function that performs `op` directly on one of its
+// parameters: the operation is then one on the corresponding argument.
+func helperOp(ins ssa.Instruction, op func(ssa.Instruction) (ssa.Value, bool)) (ssa.Value, bool) {
+	var cc *ssa.CallCommon
+	switch x := ins.(type) {
+	case *ssa.Call:
+		cc = x.Common()
+	case *ssa.Defer:
+		cc = x.Common()
+	default:
+		return nil, false
+	}
+	cal := cc.StaticCallee()
+	if cal == nil || cal.Blocks == nil || !inModule(cal) || len(cal.Blocks) > 4 {
+		return nil, false
+	}
+	for _, b := range cal.Blocks {
+		for _, i2 := range b.Instrs {
+			if _, isCall := i2.(ssa.CallInstruction); isCall {
+				if _, isB := i2.(ssa.CallInstruction).Common().Value.(*ssa.Builtin); !isB {
+					if c2 := i2.(ssa.CallInstruction).Common().StaticCallee(); c2 == nil || inModule(c2) {
+						continue // not entered recursively
+					}
+				}
+			}
+			v, ok := opNoHelper(i2, op)
+			if !ok {
+				continue
+			}
+			if p, isParam := v.(*ssa.Parameter); isParam {
+				for i, q := range cal.Params {
+					if q == p && i < len(cc.Args) {
+						return cc.Args[i], true
+					}
+				}
+			}
+		}
+	}
+	return nil, false
+}
+
+var helperOff bool
+
+func opNoHelper(ins ssa.Instruction, op func(ssa.Instruction) (ssa.Value, bool)) (ssa.Value, bool) {
+	old := helperOff
+	helperOff = true
+	v, ok := op(ins)
+	helperOff = old
+	return v, ok
+}
+
 // insertInto / removeFrom: the instruction adds an element to / removes one from a container; returns the
 // container's identity value.
 func insertInto(ins ssa.Instruction) (ssa.Value, bool) {
+	if !helperOff {
+		if v, ok := helperOp(ins, insertInto); ok {
+			return v, true
+		}
+	}
 	switch x := ins.(type) {
 	case *ssa.MapUpdate:
 		return x.Map, true
@@ -586,6 +656,11 @@ func insertInto(ins ssa.Instruction) (ssa.Value, bool) {
 }
 
 func removeFrom(ins ssa.Instruction) (ssa.Value, bool) {
+	if !helperOff {
+		if v, ok := helperOp(ins, removeFrom); ok {
+			return v, true
+		}
+	}
 	switch x := ins.(type) {
 	case *ssa.Call:
 		if bi, ok := x.Call.Value.(*ssa.Builtin); ok && bi.Name() == "delete" && len(x.Call.Args) == 2 {
@@ -1008,14 +1083,15 @@ func ruleLoaderCacheSSA(c *Ctx) *loaderSSA {
 		for _, b := range f.Blocks {
 			for _, ins := range b.Instrs {
 				what := ""
-				switch x := ins.(type) {
-				case *ssa.Lookup:
-					if fv := ls.setOf(x.X); fv != nil && (fv == ls.A || fv == ls.L) {
+				if set, isTest := memberTest(ins); isTest {
+					if fv := ls.setOf(set); fv != nil && (fv == ls.A || fv == ls.L) {
 						what = "membership test in the ancestor set"
 						if fv == ls.L {
 							what = "membership test in the loaded set"
 						}
 					}
+				}
+				switch x := ins.(type) {
 				case *ssa.BinOp:
 					for _, side := range []ssa.Value{x.X, x.Y} {
 						for w := range backSlice(side) {
@@ -1057,7 +1133,7 @@ func ruleLoaderCacheSSA(c *Ctx) *loaderSSA {
 			}
 		}
 	}
-	c.census("G-CACHEINDEP", "content-independent verdicts in the include step", nVerdict, 3)
+	c.census("G-CACHEINDEP", "content-independent verdicts in the include step", nVerdict, 2)
 	// G-CACHEPURE: what is put into the per-file cache depends on the file alone - not on the include directive that
 	// happened to ask first (its position) nor on the including file
 	nPut := 0
@@ -1339,9 +1415,9 @@ func (ls *loaderSSA) checkLoadState(c *Ctx) {
 		nf := 0
 		for i := 0; owner != nil && i < owner.NumFields(); i++ {
 			fld := owner.Field(i)
+			nf++
 			switch fld.Type().Underlying().(type) {
 			case *types.Map:
-				nf++
 				if fld == av || (ls.L != nil && ls.L == any(fld)) {
 					c.ok("G-LOADSTATE", "include."+ownerName, "per-load field "+fld.Name(), fld.Pos(), "ancestor set / loaded set (G-ANCESTOR, G-ONCE)")
 				} else {
@@ -1350,7 +1426,7 @@ func (ls *loaderSSA) checkLoadState(c *Ctx) {
 				}
 			}
 		}
-		c.census("G-LOADSTATE", "map fields of the per-load state", nf, 2)
+		c.census("G-LOADSTATE", "fields of the per-load state examined", nf, 2)
 	}
 }
 
@@ -1465,3 +1541,149 @@ func necessaryMemberships(cond ssa.Value, taken bool, depth int) []membership {
 	}
 	return nil
 }
+
+// blockMemberships: the membership facts that hold whenever the block is reached: those of each controlling
+// condition, and - for a verdict value that the conditions only exclude constants of (`switch v { case a: return;
+// case b: return }; rest`) - the facts common to all return statements of the verdict helper that yield one of
+// the remaining constants.
+func blockMemberships(blk *ssa.BasicBlock) []membership {
+	var out []membership
+	type exKey struct {
+		call *ssa.Call
+		idx  int
+	}
+	excluded := map[exKey][]constant.Value{}
+	var order []exKey
+	for _, cc := range controlCondsPol(blk) {
+		if bo, ok := cc.Cond.(*ssa.BinOp); ok && (bo.Op == token.EQL || bo.Op == token.NEQ) {
+			v, k := bo.X, bo.Y
+			if _, isConst := v.(*ssa.Const); isConst {
+				v, k = bo.Y, bo.X
+			}
+			if kc, ok := k.(*ssa.Const); ok && kc.Value != nil {
+				idx := 0
+				if ex, ok := v.(*ssa.Extract); ok {
+					idx, v = ex.Index, ex.Tuple
+				}
+				if call, ok := v.(*ssa.Call); ok && (bo.Op == token.EQL) != cc.Taken {
+					key := exKey{call, idx}
+					if _, seen := excluded[key]; !seen {
+						order = append(order, key)
+					}
+					excluded[key] = append(excluded[key], kc.Value)
+					continue
+				}
+			}
+		}
+		out = append(out, necessaryMemberships(cc.Cond, cc.Taken, 0)...)
+	}
+	for _, key := range order {
+		cal := key.call.Call.StaticCallee()
+		if cal == nil || cal.Blocks == nil || !inModule(cal) {
+			continue
+		}
+		var common map[string]membership
+		n := 0
+		for _, b := range cal.Blocks {
+			if len(b.Instrs) == 0 {
+				continue
+			}
+			r, ok := b.Instrs[len(b.Instrs)-1].(*ssa.Return)
+			if !ok || key.idx >= len(r.Results) {
+				continue
+			}
+			rc, ok := unspillResult(r.Results[key.idx], b).(*ssa.Const)
+			if !ok || rc.Value == nil {
+				common = map[string]membership{} // a computed verdict: nothing can be concluded
+				n++
+				continue
+			}
+			ex := false
+			for _, k := range excluded[key] {
+				if constant.Compare(rc.Value, token.EQL, k) {
+					ex = true
+				}
+			}
+			if ex {
+				continue
+			}
+			n++
+			here := map[string]membership{}
+			for _, cc := range controlCondsPol(b) {
+				for _, m := range necessaryMemberships(cc.Cond, cc.Taken, 1) {
+					// a parameter of the helper stands for the argument of this call
+					if p, isParam := memberRoot(m.set).(*ssa.Parameter); isParam {
+						for i, q := range cal.Params {
+							if q == p && i < len(key.call.Call.Args) {
+								m.set = rebase(m.set, key.call.Call.Args[i])
+							}
+						}
+					}
+					here[fmt.Sprintf("%s|%v", memberDesc(m.set), m.pos)] = m
+				}
+			}
+			if common == nil {
+				common = here
+			} else {
+				for k := range common {
+					if _, ok := here[k]; !ok {
+						delete(common, k)
+					}
+				}
+			}
+		}
+		if n > 0 {
+			var ks []string
+			for k := range common {
+				ks = append(ks, k)
+			}
+			sort.Strings(ks)
+			for _, k := range ks {
+				out = append(out, common[k])
+			}
+		}
+	}
+	return out
+}
+
+// memberRoot: the base value a container expression is rooted in (a parameter for `p.field`).
+func memberRoot(v ssa.Value) ssa.Value {
+	for i := 0; i < 8; i++ {
+		switch x := v.(type) {
+		case *ssa.UnOp:
+			if x.Op == token.MUL {
+				v = x.X
+				continue
+			}
+		case *ssa.FieldAddr:
+			v = x.X
+			continue
+		}
+		break
+	}
+	return v
+}
+
+// memberDesc: a context-free description of a container expression (field path below its root).
+func memberDesc(v ssa.Value) string {
+	var parts []string
+	for i := 0; i < 8; i++ {
+		switch x := v.(type) {
+		case *ssa.UnOp:
+			if x.Op == token.MUL {
+				v = x.X
+				continue
+			}
+		case *ssa.FieldAddr:
+			parts = append([]string{fieldVarOfAddr(x).Name()}, parts...)
+			v = x.X
+			continue
+		}
+		break
+	}
+	return fmt.Sprintf("%T:%s", v, strings.Join(parts, "."))
+}
+
+// rebase: container expressions are compared through their field identity (setOf), which does not depend on the
+// root; the expression itself is kept.
+func rebase(set ssa.Value, arg ssa.Value) ssa.Value { return set }
